@@ -12,7 +12,7 @@ ID = 'C12'
 LEVEL = 'exploration'
 RUNS = {'quick': 16000, 'thorough': 300000}
 CHUNK = 40
-PROBES = ['other_request_while_listing_pending', 'numeric_looking_process_filter', 'tid_zero_filter', 'filter_list_edited_in_place', 'boundary_subclass_event_kept', 'class_filter', 'subclass_filter', 'class_and_subclass', 'tid_filter', 'tid_and_class', 'empty_lists', 'tuple_filter',
+PROBES = ['cli_filters_compared', 'other_request_while_listing_pending', 'numeric_looking_process_filter', 'tid_zero_filter', 'filter_list_edited_in_place', 'boundary_subclass_event_kept', 'class_filter', 'subclass_filter', 'class_and_subclass', 'tid_filter', 'tid_and_class', 'empty_lists', 'tuple_filter',
           'filter_matches_nothing', 'log_listing', 'log_process_filter_by_name', 'log_process_filter_by_pid', 'log_tid_filter',
           'abandoned_listing_before', 'reconfigured_between_requests', 'v3_dump']
 RULE = ('one run = one long-lived PyKdebugParser, a history of 2..7 operations (reconfigure filters, abandoned listing, judged '
@@ -31,7 +31,7 @@ def _gen_filters(rng, dump, stream_ids, tids, procs):
     subs = sorted({i >> 16 for i in stream_ids})
     r = rng.random()
     if r < 0.35:
-        f['cls'] = [rng.pick(classes + [0x99]) for _ in range(rng.randint(1, 3))] if classes else [0x99]
+        f['cls'] = [rng.pick(classes + [0x99, 0x040c, 0x0701]) for _ in range(rng.randint(1, 3))] if classes else [0x99]
     elif r < 0.55:
         f['sub'] = [rng.pick(subs + [0x9999]) for _ in range(rng.randint(1, 3))] if subs else [0x9999]
         if classes and rng.chance(0.2):
@@ -120,7 +120,7 @@ def generate(rng, index, tier):
             hist.append(req)
     if not any(h['op'] == 'request' for h in hist):
         hist.append({'op': 'request', 'dump': 0, 'what': 'kevents'})
-    return {'dumps': dumps, 'history': hist, 'earlier_other': rng.chance(0.12)}
+    return {'dumps': dumps, 'history': hist, 'earlier_other': rng.chance(0.12), 'cli': index % 20 == 7}
 
 
 def apply_filters(p, f):
@@ -192,9 +192,19 @@ def execute(scn):
                     lst.pop(0)
                 elif h['how'] == 'clear':
                     del lst[:]
+                # (what the caller's lists now hold is tracked here, independently of the tool's attributes: if the two lists
+                #  were one object inside the tool, reading them back would hide it)
                 cur = dict(cur)
-                cur['cls'] = list(p.filter_class)
-                cur['sub'] = list(p.filter_subclass)
+                mine = list(cur.get('cls') or []) if h['which'] == 'cls' else list(cur.get('sub') or [])
+                if h['how'] == 'append':
+                    mine.append(val)
+                elif h['how'] == 'remove' and mine:
+                    mine.pop(0)
+                elif h['how'] == 'clear':
+                    mine = []
+                cur['cls' if h['which'] == 'cls' else 'sub'] = mine
+                cur.setdefault('cls', [])
+                cur.setdefault('sub', [])
                 cur['as_tuple'] = False
                 dirty = True
                 bump('probe:filter_list_edited_in_place')
@@ -302,5 +312,37 @@ def execute(scn):
                           'detail': 'filters %r: %d items, want %d of %d; first difference at %d: got %r want %r' % (
                               cur, len(got), len(want), len(ritems), j, got[j] if j < len(got) else None, want[j] if j < len(want) else None)})
         hist.append(['request', what, len(got), len(want)])
+    if scn.get('cli') and not viols:
+        # the command line's filters (decimal, zero-padded decimal, 0x-hex class/subclass values) select what the library selects
+        import os
+        import tempfile
+        from click.testing import CliRunner
+        from pykdebugparser.__main__ import cli
+        bump('probe:cli_filters_compared')
+        d0 = scn['dumps'][0]
+        tids = [th['tid'] for th in d0['threads'] if th['tid'] < 10 ** 9]
+        sids = sorted({common.ev_tuple(e)[5] for e in ref(0, 'kevents')[0]}) if ref(0, 'kevents')[1] is None else []
+        with tempfile.TemporaryDirectory() as td:
+            path = os.path.join(td, 'dump')
+            with open(path, 'wb') as f:
+                f.write(files[0])
+            trials = []
+            if tids:
+                t = tids[0]
+                trials += [(['--tid', str(t)], {'tid': t}), (['--tid', '0' + str(t)], {'tid': t}), (['--tid', '00' + str(t)], {'tid': t})]
+            if sids:
+                c, s_ = sids[0] >> 24, sids[-1] >> 16
+                trials += [(['-cf', str(c)], {'cls': [c]}), (['-cf', hex(c)], {'cls': [c]}), (['-sf', hex(s_), '-cf', '0x%02x' % c], {'cls': [c], 'sub': [s_]}),
+                           (['-sf', str(s_)], {'sub': [s_]})]
+            for args, f_ in trials:
+                res = CliRunner().invoke(cli, ['kevents', path] + args)
+                lp = tool.pk_mod.PyKdebugParser()
+                apply_filters(lp, dict(f_, as_tuple=True))
+                items, exc = common.drain(lambda: lp.formatted_kevents(SimReader(files[0])))
+                want = ''.join(x + '\n' for x in items)
+                if exc is None and res.exception is None and res.output != want:
+                    viols.append({'tag': 'cli-filter-differs', 'sig': args[0], 'detail': 'kevents %r printed %d lines, the library with %r gives %d' % (args, res.output.count('\n'), f_, len(items))})
+                elif exc is None and res.exception is not None and not isinstance(res.exception, SystemExit):
+                    viols.append({'tag': 'cli-filter-differs', 'sig': args[0] + ':raised', 'detail': 'kevents %r raised %r' % (args, res.exception)})
     return {'violations': viols[:3], 'digest': digest_of(scn, hist), 'stats': stats, 'nontrivial': nontrivial,
             'shape': repr(sorted(shapes)), 'extent': {'requests': len(hist)}}
